@@ -175,6 +175,12 @@ impl<const N: usize> CobsAccumulator<N> {
     /// # Panics
     ///
     /// Will panic if the input does not fit in the internal buffer.
+    /// Verification hook (only with `--cfg postcard_verif`): the raw buffer and the fill index.
+    #[cfg(postcard_verif)]
+    pub fn verif_state(&self) -> (&[u8; N], usize) {
+        (&self.buf, self.idx)
+    }
+
     fn extend_unchecked(&mut self, input: &[u8]) {
         let new_end = self.idx + input.len();
         self.buf[self.idx..new_end].copy_from_slice(input);
